@@ -20,7 +20,7 @@ func init() {
 		ID:   "C06",
 		Race: true,
 		Rule: "Callback trace specification checked online against real Dials instances. Scripted part (every run, shard 0..): all 6 interleavings of {client: ViewVersion, RegisterCallback queued} x {monitor: version stored, new-config event queued}, forced with gates at the dials hook points mon.recv / mon.beforeAnnounce and fenced on observed hook events, " +
-			"for 4 token kinds (fresh, one-behind, many-behind, zero value) x {callback goroutine idle, parked inside a slow OnNewConfig} = 48 schedules, plus 8 unregister-vs-announce schedules 6 unregister-vs-shutdown schedules (unregister queued behind a backlog while every source calls Done) and 2 queue-overflow schedules (64 events queued behind a parked callback, then source errors and rejected updates: nothing may run concurrently with the parked callback). Stress part: 2-6 clients doing report/ViewVersion/register/reports/unregister(/unregister again) against 1-3 reporters with seeded yields at the hook points. " +
+			"for 4 token kinds (fresh, one-behind, many-behind, zero value) x {callback goroutine idle, parked inside a slow OnNewConfig} = 48 schedules, plus 8 unregister-vs-announce schedules 6 unregister-vs-shutdown schedules (unregister queued behind a backlog while every source calls Done) and 2 queue-overflow schedules (64 events queued behind a parked callback, then source errors and rejected updates: nothing may run concurrently with the parked callback), and 24 schedules on a Dials without global callbacks (nil OnNewConfig/OnWatchedError) in which 1-3 versions are installed while no callback is registered at all (optionally after an earlier callback came and went) and a callback then registers with a token from before / the middle of / after those installs or the zero token: these are single-threaded and fenced, so the demanded calls (catch-up, ordinary calls with the predecessor as old, silence after unregister) are known from the client's side alone and compared with the actual ones before the trace specification is consulted. Stress part (one history in six without global callbacks): 2-6 clients doing report/ViewVersion/register/reports/unregister(/unregister again) against 1-3 reporters with seeded yields at the hook points. " +
 			"Oracle: from the exact order in which the callback goroutine dequeued events (cb.dequeue hook) and the install log (mon.stored hook) a restatement of the property predicts the invocation sequence (global callback, then live handles with token<serial in registration order with old=predecessor; catch-up exactly when genuine token < last announced at registration processing); predicted and actual sequences must be equal. " +
 			"Independently: never two callbacks in flight, no invocation after unregister returned true, per-handle serials strictly increasing and above the token, dequeued new-config serials equal the install log when the 64-slot queue did not overflow. distinct_nontrivial = distinct (dequeue-order shape, catch-ups due, skips due) signatures with >=1 registration.",
 		Assumptions: []string{
@@ -29,8 +29,8 @@ func init() {
 		},
 		MinDistinct: map[string]int{"quick": 1200, "thorough": 150000},
 		MinCounters: map[string]map[string]int64{
-			"quick":    {"scripted_schedules_run": 64, "callback_invocations_compared": 3000, "catchups_due": 60, "skips_due": 40},
-			"thorough": {"scripted_schedules_run": 64, "callback_invocations_compared": 5000000},
+			"quick":    {"scripted_schedules_run": 64, "callback_invocations_compared": 3000, "catchups_due": 60, "skips_due": 40, "quiet_period_scripts_run": 24, "quiet_period_catchups_due": 8, "stress_histories_without_global_callbacks": 100},
+			"thorough": {"scripted_schedules_run": 64, "callback_invocations_compared": 5000000, "quiet_period_scripts_run": 24, "quiet_period_catchups_due": 8, "stress_histories_without_global_callbacks": 10000},
 		},
 		Plan: func(tier string) fw.Plan {
 			if tier == "thorough" {
@@ -211,7 +211,8 @@ func (s *c06Scn) judge(desc any) (sig string) {
 	}
 	// with delayed verification and the suppress option, the global OnNewConfig is withheld for the events flagged so
 	// (C09 judges the flag); registered callbacks and the catch-up baseline are not affected by it
-	want, bad := conc.Predict(dq, s.tr, cfgBySerial, s.tokenCfg, true, true, func(d conc.DQ) bool { return d.Suppressed })
+	globals := !e.Opts.NoGlobalCBs // Params.OnNewConfig / OnWatchedError are nil in some scenarios: then only registered callbacks run
+	want, bad := conc.Predict(dq, s.tr, cfgBySerial, s.tokenCfg, globals, globals, func(d conc.DQ) bool { return d.Suppressed })
 	if bad != "" {
 		key := "announce-order"
 		if strings.Contains(bad, "token whose config") {
@@ -281,6 +282,13 @@ func (s *c06Scn) settle() bool {
 	e := s.e
 	if !e.Quiesce(e.S.Ctx) {
 		return false
+	}
+	if e.Opts.NoGlobalCBs {
+		// no error callback exists that could show the sentinel's event was processed, and none is needed: the sentinel
+		// was received by the monitor after it finished (announced) every earlier install, and the register/unregister
+		// round trip went through the same FIFO queue after those announcements. A sentinel's own error event that is
+		// still queued invokes nothing.
+		return true
 	}
 	return conc.WaitUntil(func() bool { return e.SentinelCallbacks() >= e.SentinelsSent() }, c06Watchdog)
 }
@@ -710,10 +718,177 @@ func c06OverflowScript(w *fw.Worker, i int, r *fw.Rand) {
 	w.Distinct("overflowscript")
 }
 
+// c06QuietScript: a Dials WITHOUT global callbacks (Params.OnNewConfig and OnWatchedError nil, as plain dials.Config
+// gives) on which versions are installed while no callback is registered at all (optionally after an earlier callback
+// came and went); then a callback registers with a token taken before / in the middle of / after those installs, or
+// with the zero token. The script is single-threaded and fenced on the monitor (a sentinel is only received once the
+// monitor finished, and hence announced, every earlier install) and on the callback queue (a register/unregister round
+// trip through the same FIFO), so what the property demands is known from the CLIENT's side alone, without looking at
+// what the callback goroutine dequeued: a genuine token older than the version current at registration => one
+// immediate catch-up call (token's config, current config); every later install => one ordinary call with the
+// immediate predecessor as old; nothing after unregister returned true. The trace specification is run as well.
+func c06QuietScript(w *fw.Worker, i int, r *fw.Rand, k int) {
+	prior := k&1 == 1
+	tokenKind := []string{"before-quiet-installs", "mid-quiet-installs", "fresh", "zero"}[(k>>1)%4]
+	nQuiet := 1 + (k>>3)%3
+	s, err := c06NewOpts(w, i, r, conc.Opts{NSrc: 2, NoGlobalCBs: true})
+	if err != nil {
+		w.Violation(i, "config-failed", err.Error(), nil)
+		return
+	}
+	e := s.e
+	defer e.Stop()
+	defer s.gates.ReleaseAll()
+	ctx := e.S.Ctx
+	s.initial = e.D.View()
+	desc := map[string]any{"script": "installs-while-no-callback-is-registered", "global_callbacks": false, "token": tokenKind, "quiet_installs": nQuiet, "earlier_callback_came_and_went": prior}
+	install := func() bool {
+		res, _ := e.Report(ctx, 0, r.Intn(2), s.validLayer(r), true)
+		if res != conc.ResNil {
+			w.Violation(i, "valid-report-rejected", fmt.Sprintf("blocking report of a valid layer returned res=%d", res), desc)
+			return false
+		}
+		return true
+	}
+	callsOf := func(id int) []conc.Call {
+		var out []conc.Call
+		for _, c := range conc.Actual(e.CBLog()) {
+			if c.Kind == "reg" && c.Handle == id {
+				out = append(out, c)
+			}
+		}
+		return out
+	}
+	// fence: monitor finished every earlier install's loop iteration, callback goroutine processed everything queued so far
+	fence := func(what string) bool { return s.wd(e.Quiesce(ctx), what) }
+	compare := func(stage string, want []conc.Call) bool {
+		got := callsOf(1)
+		if key, diff := conc.DiffCalls(want, got); key != "" {
+			ws := make([]string, 0, len(want))
+			for _, c := range want {
+				ws = append(ws, c.String()+"["+c.Tag+"]")
+			}
+			gs := make([]string, 0, len(got))
+			for _, c := range got {
+				gs = append(gs, c.String())
+			}
+			w.Violation(i, "no-global-callbacks:"+key, stage+": "+diff, map[string]any{"case": desc, "demanded_from_the_client_side": ws, "actual": gs})
+			return false
+		}
+		return true
+	}
+	for n := r.Intn(2); n > 0; n-- {
+		if !install() {
+			return
+		}
+	}
+	if prior {
+		// a callback that registers, sees one install and leaves again: nobody is registered afterwards
+		cfg9, tok9 := e.D.ViewVersion()
+		un9 := s.register(9, cfg9, tok9)
+		if un9 == nil {
+			w.Violation(i, "register-returned-nil", "RegisterCallback returned nil with a live context", desc)
+			return
+		}
+		if !install() {
+			return
+		}
+		// the announce step follows the reply to the blocking report: without this fence the unregistration could be
+		// queued ahead of the new-config event and the callback would rightly see nothing
+		if !s.wd(e.FenceMonitor(ctx), "monitor fence before the earlier callback leaves") {
+			return
+		}
+		if !s.unregister(9, un9) {
+			w.Violation(i, "unregister-returned-false", "unregister returned false with a live context and a running Dials", desc)
+			return
+		}
+		if got := callsOf(9); len(got) != 1 || got[0].Old != cfg9 || got[0].New != e.D.View() {
+			w.Violation(i, "no-global-callbacks:earlier-callback-calls-wrong", fmt.Sprintf("registered fresh, one install, unregistered (returned true): %d calls %v", len(got), got), desc)
+			return
+		}
+	}
+	if !s.wd(e.FenceMonitor(ctx), "monitor fence before the quiet installs") {
+		return
+	}
+	tokCfg, tok := e.D.ViewVersion() // "before-quiet-installs"
+	for n := 0; n < nQuiet; n++ {
+		if !install() {
+			return
+		}
+		if n == 0 && tokenKind == "mid-quiet-installs" {
+			tokCfg, tok = e.D.ViewVersion()
+		}
+	}
+	// the monitor is back at the top of its loop: every quiet install has been through the announce step
+	if !s.wd(e.FenceMonitor(ctx), "monitor fence after the quiet installs") {
+		return
+	}
+	curCfg, curTok := e.D.ViewVersion()
+	switch tokenKind {
+	case "fresh":
+		tokCfg, tok = curCfg, curTok
+	case "zero":
+		tokCfg, tok = nil, dials.CfgSerial[conc.Cfg]{}
+	}
+	unreg := s.register(1, tokCfg, tok)
+	if unreg == nil {
+		w.Violation(i, "register-returned-nil", "RegisterCallback returned nil with a live context", desc)
+		return
+	}
+	if !fence("fence after the registration") {
+		return
+	}
+	var want []conc.Call
+	if tokCfg != nil && conc.SerialOf(tok) < conc.SerialOf(curTok) {
+		want = append(want, conc.Call{Kind: "reg", Handle: 1, Old: tokCfg, New: curCfg, Tag: "catchup"})
+		w.Count("quiet_period_catchups_due", 1)
+	}
+	if !compare(fmt.Sprintf("after the registration was processed (token serial %d, current serial %d, no install since)", conc.SerialOf(tok), conc.SerialOf(curTok)), want) {
+		return
+	}
+	prev := curCfg
+	for n := r.Range(1, 2); n > 0; n-- {
+		if !install() {
+			return
+		}
+		nw := e.D.View()
+		want = append(want, conc.Call{Kind: "reg", Handle: 1, Old: prev, New: nw, Tag: "ordinary"})
+		prev = nw
+	}
+	if !fence("fence after the installs with the callback registered") {
+		return
+	}
+	if !compare("after the installs made while the callback was registered", want) {
+		return
+	}
+	if !s.unregister(1, unreg) {
+		w.Violation(i, "unregister-returned-false", "unregister returned false with a live context and a running Dials", desc)
+		return
+	}
+	if !install() {
+		return
+	}
+	if !s.wd(s.settle(), "final fence") {
+		return
+	}
+	if !compare("after unregister returned true and one more install", want) {
+		return
+	}
+	if sig := s.judge(desc); sig != "" {
+		w.Distinct(fmt.Sprintf("quietscript|%d|%s", k, sig))
+	}
+	w.Count("scripted_schedules_run", 1)
+	w.Count("quiet_period_scripts_run", 1)
+	w.Count("quiet_period_client_side_calls_compared", int64(len(want)))
+}
+
 func c06Stress(w *fw.Worker, i int, r *fw.Rand) {
 	// a quarter of the histories start with verification delayed and the global callbacks suppressed until it is enabled
 	delayed := r.Chance(25)
-	s, err := c06NewOpts(w, i, r, conc.Opts{NSrc: r.Range(2, 3), SlowCB: r.Intn(3), Delay: delayed, Suppress: delayed})
+	// one history in six runs on a Dials without global callbacks (nil OnNewConfig/OnWatchedError): registered callbacks are
+	// then the only listeners, and there are stretches with none at all
+	noGlobals := i%6 == 4
+	s, err := c06NewOpts(w, i, r, conc.Opts{NSrc: r.Range(2, 3), SlowCB: r.Intn(3), Delay: delayed, Suppress: delayed, NoGlobalCBs: noGlobals})
 	if err != nil {
 		w.Violation(i, "config-failed", err.Error(), nil)
 		return
@@ -845,7 +1020,10 @@ func c06Stress(w *fw.Worker, i int, r *fw.Rand) {
 		w.Inconclusive(i, "final fence failed")
 		return
 	}
-	desc := map[string]any{"mode": "stress", "clients": nClients, "reporters": nReporters, "jitter": e.Jitter, "delayed_verification_and_suppressed_globals": delayed}
+	desc := map[string]any{"mode": "stress", "clients": nClients, "reporters": nReporters, "jitter": e.Jitter, "delayed_verification_and_suppressed_globals": delayed, "global_callbacks": !noGlobals}
+	if noGlobals {
+		w.Count("stress_histories_without_global_callbacks", 1)
+	}
 	bySerial := map[uint64]*conc.Cfg{0: s.initial}
 	for _, in := range e.Installs() {
 		bySerial[in.Serial] = in.Cfg
@@ -858,6 +1036,9 @@ func c06Stress(w *fw.Worker, i int, r *fw.Rand) {
 	}
 	w.Count("viewversion_pairs_checked", int64(len(pairs)))
 	if sig := s.judge(desc); sig != "" {
+		if noGlobals {
+			sig = "noglobals|" + sig
+		}
 		w.Distinct("stress|" + sig)
 		if i%23 == 0 {
 			w.Sample(map[string]any{"mode": "stress", "clients": nClients, "dequeue_shape_catchups_skips": sig})
@@ -884,6 +1065,7 @@ func runC06(w *fw.Worker) {
 	nShutdown := nUnreg + 6
 	nScripted := nShutdown + 2
 	nRegShutdown := nScripted + 12 // the mutated select is a coin flip: the schedule is repeated
+	nQuiet := nRegShutdown + 24    // 2 (earlier callback came and went) x 4 token kinds x 1..3 installs with nobody registered
 	w.Cases(func(i int, r *fw.Rand) {
 		g := i*w.Shards + w.Shard // global index
 		switch {
@@ -903,6 +1085,8 @@ func runC06(w *fw.Worker) {
 			c06OverflowScript(w, i, r)
 		case g < nRegShutdown:
 			c06RegisterShutdownScript(w, i, r, 1+(g-nScripted)%4)
+		case g < nQuiet:
+			c06QuietScript(w, i, r, g-nRegShutdown)
 		default:
 			c06Stress(w, i, r)
 		}
